@@ -190,6 +190,9 @@ pub fn def(ctx: &Ctx) -> PropertyDef {
         let programs = vec![
             mk("ilv: k:upsert(ttl+50s);await;get || {clock+7s;tick}", vec![put_ttl(1, 30, 5000)], vec![vec![ups(true, Some(30), Some(50_000), false), Op::Await { call: 0 }, get(1)], vec![adv(7000), Op::Tick]]),
             mk("ilv: k:upsert(remove-ttl);get || {clock+7s;tick} (k not yet expired at the tick's shard)", vec![put_ttl(1, 30, 9000)], vec![vec![ups(true, Some(30), None, true), get(1)], vec![adv(7000), Op::Tick]]),
+            // two puts of the same absent key in one burst: whichever is accepted decides whether the key has a deadline at all
+            mk("ilv: put_ttl(k,1s);put(k) unawaited;await;clock+3s;tick;get", vec![], vec![vec![put_ttl(1, 30, 1000), Op::Put { k: 1, w: Some(30), ttl_ms: None }, Op::AwaitAll, adv(3000), Op::Tick, get(1)]]),
+            mk("ilv: put(k);put_ttl(k,1s) unawaited;await;clock+3s;tick;get", vec![], vec![vec![Op::Put { k: 1, w: Some(30), ttl_ms: None }, put_ttl(1, 30, 1000), Op::AwaitAll, adv(3000), Op::Tick, get(1)]]),
             mk("ilv: k:get;get || {clock+3s;tick} sweeping b (k has a later deadline in the same shard)", vec![put_ttl(1, 30, 9000), put_ttl(2, 30, 1000)], vec![vec![get(1), get(1)], vec![adv(3000), Op::Tick]]),
         ];
         for p in programs {
